@@ -81,6 +81,9 @@ def to_sympy(n, resolve, depth=0):
             return sympy.log(to_sympy(args[0], resolve, depth + 1))
         if cal in ("std::exp", "exp"):
             return sympy.exp(to_sympy(args[0], resolve, depth + 1))
+        if cal.startswith(("std::min", "std::max")) and len(args) == 2:
+            a, b = to_sympy(args[0], resolve, depth + 1), to_sympy(args[1], resolve, depth + 1)
+            return sympy.Min(a, b) if cal.startswith("std::min") else sympy.Max(a, b)
         raise NotClosedForm("call " + cal)
     if k in ("CXXConstructExpr",) and len(c) == 1:
         return to_sympy(c[0], resolve, depth + 1)
